@@ -1144,6 +1144,20 @@ class Interp:
             kw = dict(func.pkwargs or {})
             kw.update(kwargs)
             return self.call_value(func.target, list(func.pargs or []) + list(args), kw, frame, st, n)
+        if ty == 'opcaller' and len(args) == 1:
+            # operator.methodcaller / attrgetter / itemgetter applied to one object
+            obj = args[0]
+            if func.kind == 'attr':
+                return self.get_attr(obj, func.name, frame, st, n)
+            if func.kind == 'method':
+                m = self.get_attr(obj, func.name, frame, st, n)
+                return self.call_value(m, list(func.pargs or []), dict(func.pkwargs or {}), frame, st, n)
+            key = func.key
+            if obj.elts is not None and has_const(key) and isinstance(cval(key), int) and -len(obj.elts) <= cval(key) < len(obj.elts):
+                return obj.elts[cval(key)]
+            if obj.ty == 'dict' and obj.kw and has_const(key) and cval(key) in obj.kw:
+                return obj.kw[cval(key)]
+            return AV(deps=self.model.deps_of(args, kwargs))
         if ty == 'lambda':
             return self.call_lambda(func, args, kwargs, st, n)
         if ty == 'builtin':
